@@ -8,6 +8,7 @@ def T(q, t):
 HARNESSES = [
     dict(name="regions", src="props/regions.cpp", variant="plain"),
     dict(name="regions_asan", src="props/regions.cpp", variant="asan"),
+    dict(name="matrix", src="props/matrix.cpp", variant="plain"),
 ]
 
 CHECKS = {}
@@ -63,4 +64,21 @@ CHECKS["C07"] = dict(
     floor=T(20000, 400000), nt_floor=T(2000, 20000),
     assumptions=["empty query rectangles are not generated: the API does not define IN/OUT for them",
                  "little-endian a1 bit order (bit i of a 32-bit word is pixel i)"],
+)
+
+CHECKS["C11"] = dict(
+    level="exploration",
+    rule=("rapidcheck cases over point_3d, point, multiply (all aliasing patterns), scale/rotate/translate (forward, reverse, both), "
+          "bounds, invert, predicates and fixed<->double conversion; matrix/vector entries from {0, +-1 unit, +-2^k, +-2^k+-1, "
+          "INT32_MIN/MAX, moderate, uniform}; w steered to exact powers of two incl. 0 and +-65536.0; well-conditioned and exactly "
+          "singular matrices for invert; doubles on/off the 16.16 grid and within 2 units of +-32768 for conversion. Oracle: exact "
+          "__int128 products/quotients (nearest for |w|<65536, within 1 unit otherwise; 1.5 units for the three separately rounded "
+          "products of multiply), TRUE/FALSE must match representability, no abort. Non-trivial = not the affine w==1 shortcut / "
+          "overflowing / aliased etc. as labelled; distinct = distinct serialised cases."),
+    jobs=[dict(harness="matrix", prop="matrix", cases=T(250000, 4000000), procs=T(8, 16))],
+    floor=T(1000000, 30000000), nt_floor=T(100000, 1000000),
+    assumptions=["'correctly rounded' for multiply/scale/rotate/translate is read as: each 16.16 product rounded to nearest (DESIGN.md C11 Care)",
+                 "1/sx may be the floor or the ceiling of the exact quotient",
+                 "rotate with c or s == INT32_MIN is outside the domain (-s not representable)",
+                 "invert is asserted only for exactly singular matrices with entries < 2^17 units and for well-conditioned matrices (entries <= 256.0, |det| >= 2^-8)"],
 )
